@@ -70,6 +70,9 @@ def scenarios(tier):
                     for times in (1, 2):
                         for final in (None, "discard_untrimmed"):
                             S.append(dict(layout=layout, demux="combinatorial", n1=n1, n2=n2, times=times, final=final, keys=[], cores=1))
+    # --revcomp with combinatorial demultiplexing: the names must be those of the orientation that was chosen
+    for n1, n2 in ((1, 1), (2, 2), (2, 1)):
+        S.append(dict(layout="paired", demux="combinatorial", n1=n1, n2=n2, times=1, final=None, keys=[], cores=1, revcomp=True))
     multi = []
     for sc in S:
         if sc["times"] == 2 and not sc["keys"] and (sc["n1"], sc["n2"]) in ((2, 0), (3, 2), (2, 3), (2, 2)):
@@ -110,6 +113,9 @@ def run_shard(d):
             base = corpus(o["adapters2"], "x")
             r2 = [(r1[j][0], base[(j * 5 + j // 3) % len(base)][1], base[(j * 5 + j // 3) % len(base)][2]) for j in range(len(r1))]
         label = f"{sc['demux']}:{'pe' if paired else 'se'}"
+        if sc.get("revcomp"):
+            _revcomp_combinatorial(sc, o, r1, r2, wd, res, label)
+            continue
         if sc["cores"] == 1:
             out = routing.run_scenario(o, outs, sc["layout"], r1, r2, wd, want_json=False)
             res["runs"] += 1
@@ -145,6 +151,58 @@ def run_shard(d):
             res["samples"].append(dict(scenario=sc, adapters=o["adapters"], example_read=list(r1[len(r1) // 2])))
     clih.rmtree(wd)
     return res
+
+
+def _revcomp_combinatorial(sc, o, r1, r2, wd, res, label):
+    """Paired --revcomp + {name1}/{name2}: expected file from the adapter-trimming stage applied to the pair as given and
+    swapped (the same oracle as C16), then the last-match names of the chosen orientation."""
+    from cutadapt.modifiers import AdapterCutter
+    from dnaio import SequenceRecord
+
+    a1, a2 = routing.make_adapters(o)
+    c1, c2 = AdapterCutter(a1, 1, "trim", index=False), AdapterCutter(a2, 1, "trim", index=False)
+    # make some pairs arrive swapped: exchange the mates of every third pair
+    p1 = [(r2[i] if i % 3 == 1 else r1[i]) for i in range(len(r1))]
+    p2 = [(r1[i] if i % 3 == 1 else r2[i]) for i in range(len(r1))]
+    p1 = [(r1[i][0], x[1], x[2]) for i, x in enumerate(p1)]
+    p2 = [(r1[i][0], x[1], x[2]) for i, x in enumerate(p2)]
+    ind, outd = os.path.join(wd, "rc-in"), os.path.join(wd, "rc-out")
+    for d_ in (ind, outd):
+        os.makedirs(d_, exist_ok=True)
+        for n in os.listdir(d_):
+            os.unlink(os.path.join(d_, n))
+    f1, f2 = os.path.join(ind, "in.1.fq"), os.path.join(ind, "in.2.fq")
+    clih.write_text(f1, clih.fastq_text(p1))
+    clih.write_text(f2, clih.fastq_text(p2))
+    argv = ["--no-index", "--revcomp"] + routing.build_argv(o, dict(demux="combinatorial"), "paired", outd, [f1, f2])
+    r = clih.run_cli(argv)
+    res["runs"] += 1
+    case = dict(scenario=sc, argv=[a for a in argv if not a.startswith("/")])
+    if r.exit != 0:
+        res["viol"].append((f"{label}:revcomp:cli", f"cutadapt failed: {r.exit} {r.exc} {r.errors()[:1]}", case))
+        return
+    where = {}
+    for n in os.listdir(outd):
+        if n.endswith(".1.fq"):
+            for rec in clih.read_records(os.path.join(outd, n))[1]:
+                where.setdefault(rec[0].split()[0], []).append(n[len("out-"):-len(".1.fq")])
+    for (nm, s1, q1), (_, s2, q2) in zip(p1, p2):
+        res["evals"] += 1
+        t1, m1 = c1.match_and_trim(SequenceRecord(nm, s1, q1))
+        t2, m2 = c2.match_and_trim(SequenceRecord(nm, s2, q2))
+        u1, n1 = c1.match_and_trim(SequenceRecord(nm, s2, q2))
+        u2, n2 = c2.match_and_trim(SequenceRecord(nm, s1, q1))
+        fs = sum(m.score for m in m1) + sum(m.score for m in m2)
+        ss = sum(m.score for m in n1) + sum(m.score for m in n2)
+        use = bool(n1 or n2) and ss > fs
+        e1, e2 = (n1, n2) if use else (m1, m2)
+        exp = f"{e1[-1].adapter.name if e1 else 'unknown'}-{e2[-1].adapter.name if e2 else 'unknown'}"
+        if use:
+            res["nontrivial"] += 1
+        got = where.get(nm.split()[0], [])
+        if got != [exp]:
+            res["viol"].append((f"{label}:revcomp:demux", f"pair must be in the file for {exp} but is in {got}",
+                                dict(case, r1=[nm, s1], r2=[nm, s2], swapped_orientation_chosen=use)))
 
 
 def _multicore(sc, o, outs, r1, r2, wd, res, label):
